@@ -71,6 +71,9 @@ inductive Ev where
   | burn (o : Nat)                               -- o used up evaluation cost
   | tickOff                                      -- a timer tick while timer_flags has no TIMER_FLAG_HEARTBEAT: no round
   | tflags (n : Int)                             -- timer_flags set to n
+  | rp (o : Nat)                                 -- o called replace_program() (takes effect at the top of the backend loop)
+  | rpNone (o : Nat)                             -- ... not possible (a blueprint, or the program was replaced already)
+  | rpDone (o : Nat)                             -- the backend loop swapped o's program for one without heart_beat()
   | junk (s : String)                            -- crash / sanitizer / unparsable line
   deriving Repr, DecidableEq
 
@@ -287,6 +290,12 @@ def judge1 (j : JState) (e : Ev) : JState :=
   | .tickOff =>
     if j.expect != .idle then j.flagV "tick-inside-round" else { j with expect := .endOfRound, trunc := false }
   | .tflags _ => j
+  | .rp _ => j
+  | .rpNone _ => j
+  | .rpDone o =>
+    -- programs are swapped between rounds only; from now on the object has no heart_beat function: it stays on the
+    -- list, is counted down, and is never called
+    if j.expect != .idle then j.flagV s!"program-replaced-inside-round {showOid o}" else { j with nofn := o :: j.nofn }
   | .junk s => j.flagV s
 
 /-- violations found on a trace, oldest first; `[]` = the property held on this trace -/
